@@ -380,10 +380,133 @@ theorem sortByAddr_strict (l : List Host) (hnd : (l.map (·.addr)).Nodup) : Stri
     · exact h
     · exact absurd h hne
 
+/-! ## the removal loop as written (binary search, regenerated guard and deletion) refines `removeSorted` -/
+
+theorem goSearchAux_spec (f : Nat → Bool) (n : Nat) (hmono : ∀ a b, a ≤ b → b < n → f a = true → f b = true) :
+    ∀ fuel i j, i ≤ j → j ≤ n → j - i < fuel → (∀ k, k < i → f k = false) → (j < n → f j = true) →
+      goSearchAux f fuel i j ≤ n ∧ (∀ k, k < goSearchAux f fuel i j → f k = false) ∧
+      (goSearchAux f fuel i j < n → f (goSearchAux f fuel i j) = true) := by
+  intro fuel
+  induction fuel with
+  | zero => intro i j _ _ h; omega
+  | succ fuel ih =>
+    intro i j hij hjn hfuel hlo hhi
+    unfold goSearchAux
+    by_cases hlt : i < j
+    · simp only [hlt, if_true]
+      have h1 : i ≤ (i + j) / 2 := by omega
+      have h2 : (i + j) / 2 < j := by omega
+      cases hf : f ((i + j) / 2) with
+      | false =>
+        simp only [Bool.not_false, if_true]
+        apply ih _ _ (by omega) hjn (by omega) _ hhi
+        intro k hk
+        cases hk' : f k with
+        | false => rfl
+        | true =>
+          have := hmono k ((i + j) / 2) (by omega) (by omega) hk'
+          rw [hf] at this; cases this
+      | true =>
+        simp only [Bool.not_true, Bool.false_eq_true, if_false]
+        exact ih _ _ h1 (by omega) (by omega) hlo (fun _ => hf)
+    · simp only [hlt, if_false]
+      have : i = j := by omega
+      subst this
+      exact ⟨hjn, hlo, hhi⟩
+
+theorem goSearch_spec (f : Nat → Bool) (n : Nat) (hmono : ∀ a b, a ≤ b → b < n → f a = true → f b = true) :
+    goSearch n f ≤ n ∧ (∀ k, k < goSearch n f → f k = false) ∧ (goSearch n f < n → f (goSearch n f) = true) := by
+  unfold goSearch
+  exact goSearchAux_spec f n hmono (n + 1) 0 n (Nat.zero_le _) (Nat.le_refl _) (by omega) (fun k hk => by omega) (fun h => by omega)
+
+theorem removeSorted_of_spec (l : List Host) (a : String) (i : Nat)
+    (hlt : ∀ k (hk : k < l.length), k < i → ¬ a ≤ l[k].addr) (hge : ∀ (h : i < l.length), a ≤ l[i].addr) :
+    removeSorted l a = if h : i < l.length then (if l[i].addr = a then l.eraseIdx i else l) else l := by
+  induction l generalizing i with
+  | nil => simp [removeSorted]
+  | cons x t ih =>
+    cases i with
+    | zero =>
+      have := hge (by simp)
+      simp only [List.getElem_cons_zero] at this
+      simp [removeSorted, this]
+    | succ k =>
+      have h0 := hlt 0 (by simp) (by omega)
+      simp only [List.getElem_cons_zero] at h0
+      unfold removeSorted
+      simp only [h0, if_false]
+      rw [ih k (fun j hj hjk => by have := hlt (j + 1) (by simp; omega) (by omega); simpa using this)
+        (fun h => by have := hge (by simp; omega); simpa using this)]
+      by_cases hk : k < t.length
+      · simp only [hk, dite_true, List.length_cons, Nat.add_lt_add_iff_right, List.getElem_cons_succ, List.eraseIdx_cons_succ]
+        split <;> rfl
+      · simp [hk]
+
+theorem addrAt_lt (l : List Host) (k : Nat) (hk : k < l.length) : addrAt l k = l[k].addr := by
+  simp [addrAt, List.getElem?_eq_getElem hk]
+
+theorem removeStep_eq_removeSorted (l : List Host) (a : String) (hs : l.Pairwise (fun x y => x.addr ≤ y.addr)) :
+    removeStep l a = removeSorted l a := by
+  have hmono : ∀ p q, p ≤ q → q < l.length →
+      Gen.Updates.removeSearchPred l.length (addrAt l) a p = true → Gen.Updates.removeSearchPred l.length (addrAt l) a q = true := by
+    intro p q hpq hq hp
+    simp only [Gen.Updates.removeSearchPred, decide_eq_true_eq, ge_iff_le] at hp ⊢
+    rw [addrAt_lt l q hq]
+    rw [addrAt_lt l p (by omega)] at hp
+    rcases Nat.lt_or_eq_of_le hpq with h | h
+    · exact String.le_trans hp ((List.pairwise_iff_getElem.mp hs) p q (by omega) hq h)
+    · subst h; exact hp
+  obtain ⟨hle, hlo, hhi⟩ := goSearch_spec _ l.length hmono
+  unfold removeStep removeStepWith
+  generalize goSearch l.length (Gen.Updates.removeSearchPred l.length (addrAt l) a) = i at hle hlo hhi
+  rw [removeSorted_of_spec l a i
+    (fun k hk hki => by
+      have := hlo k hki
+      simp only [Gen.Updates.removeSearchPred, decide_eq_false_iff_not, ge_iff_le] at this
+      rwa [addrAt_lt l k hk] at this)
+    (fun h => by
+      have := hhi h
+      simp only [Gen.Updates.removeSearchPred, decide_eq_true_eq, ge_iff_le] at this
+      rwa [addrAt_lt l i h] at this)]
+  by_cases hi : i < l.length
+  · simp only [Gen.Updates.removeFound, hi, decide_true, Bool.true_and, decide_eq_true_eq, dite_true, addrAt_lt l i hi]
+    split
+    · simp [Gen.Updates.removeDelete, List.eraseIdx_eq_take_drop_succ]
+    · rfl
+  · simp [Gen.Updates.removeFound, hi]
+
+theorem removeSorted_sublist (l : List Host) (a : String) : (removeSorted l a).Sublist l := by
+  induction l with
+  | nil => simp [removeSorted]
+  | cons x t ih =>
+    unfold removeSorted
+    split
+    · split
+      · exact List.sublist_cons_self x t
+      · exact List.Sublist.refl _
+    · exact List.Sublist.cons₂ x ih
+
+theorem foldl_removeStep_eq (addrs : List String) (l : List Host) (hs : l.Pairwise (fun x y => x.addr ≤ y.addr)) :
+    addrs.foldl removeStep l = addrs.foldl removeSorted l := by
+  induction addrs generalizing l with
+  | nil => rfl
+  | cons a r ih =>
+    simp only [List.foldl_cons]
+    rw [removeStep_eq_removeSorted l a hs]
+    exact ih _ (List.Pairwise.sublist (removeSorted_sublist l a) hs)
+
+/-- `RemoveClusterHosts`' handler as written = `NewHostSet` of the specification fold over the sorted hosts — for every
+address list (any order, duplicates, absent addresses) and every old host list. -/
+theorem removeHosts_unfold (addrs : List String) (old : List Host) :
+    removeHosts addrs old = dedup (addrs.foldl removeSorted (sortByAddr old)) := by
+  unfold removeHosts removeHostsWith
+  simp only [show Gen.Updates.removeHosts_sorts = true from rfl, if_true]
+  rw [show removeStepWith Gen.Updates.removeDelete = removeStep from rfl, foldl_removeStep_eq _ _ (sortByAddr_sorted old)]
+
 /-- the host set after `RemoveClusterHosts`: exactly the hosts whose address is not listed (sorted by address). -/
 theorem removeHosts_eq (addrs : List String) (old : List Host) (hnd : (old.map (·.addr)).Nodup) :
     removeHosts addrs old = (sortByAddr old).filter (fun h => !decide (h.addr ∈ addrs)) := by
-  unfold removeHosts
+  rw [removeHosts_unfold]
   rw [foldl_removeSorted_eq_filter _ _ (sortByAddr_strict old hnd)]
   apply dedup_id
   have hnd' : ((sortByAddr old).map (·.addr)).Nodup := ((sortByAddr_perm old).map _).nodup_iff.mpr hnd
@@ -1470,6 +1593,7 @@ theorem hostsOk_append {hs old : List Host} (h : hostsOk hs) (ho : hostsOk old) 
 
 theorem hostsOk_remove (addrs : List String) {old : List Host} (ho : hostsOk old) : hostsOk (removeHosts addrs old) := by
   intro x hx
+  rw [removeHosts_unfold] at hx
   have := mem_foldl_removeSorted addrs (mem_dedup hx)
   exact ho x ((sortByAddr_perm old).mem_iff.mp this)
 
